@@ -411,7 +411,9 @@ def main(argv, here, repo):
         idxs = by_sig[sig]
         i = idxs[0]
         viol = [v for v in results[i]['viol'] if v['sig'] == sig]
-        path = write_replay(here, pid, cases[i], results[i]['viol'])
+        rcase = viol[0].get('replay_case') or cases[i]
+        path = write_replay(here, pid, rcase,
+                            [dict(sig=x['sig'], msg=x['msg']) for x in results[i]['viol']])
         k = match_known(known, pid, sig)
         if len(confirmed) >= MAX_CONFIRM and not k:
             # further distinct signatures are listed but not individually re-executed
